@@ -104,6 +104,21 @@ theorem nodup_filter (l : List (TID × Nat)) (q : TID × Nat → Bool) (h : (l.m
       exact h.1 (List.mem_map.mpr ⟨x, (List.mem_filter.mp hx).1, hx1⟩)
     · simp only [List.filter_cons, hq]; exact ih h.2
 
+/-- generic form of `nodup_filter` (any value type) -/
+theorem nodup_filter' {β : Type} (l : List (TID × β)) (q : TID × β → Bool) (h : (l.map (·.1)).Nodup) :
+    ((l.filter q).map (·.1)).Nodup := by
+  induction l with
+  | nil => simp
+  | cons p r ih =>
+    simp only [List.map_cons, List.nodup_cons] at h
+    by_cases hq : q p
+    · simp only [List.filter_cons, hq, if_true, List.map_cons, List.nodup_cons]
+      refine ⟨?_, ih h.2⟩
+      intro hm
+      obtain ⟨x, hx, hx1⟩ := List.mem_map.mp hm
+      exact h.1 (List.mem_map.mpr ⟨x, (List.mem_filter.mp hx).1, hx1⟩)
+    · simp only [List.filter_cons, hq]; exact ih h.2
+
 theorem terms_map (l : List (TID × Nat)) (id : TID) (g : Nat) (k : EvKind) (hk : isTerminal k = true) :
     terms id (l.map (fun p => (⟨g, p.1, k⟩ : AEvent))) = cnt id l := by
   unfold terms cnt
